@@ -214,6 +214,26 @@ def concatenation(ctx):
         raw = calls_in(pth.stmts, lambda c: isinstance(c.func, ast.Attribute) and c.func.attr in ("append", "insert") and attr_chain(c.func.value) in (["self"], ["self", "_segments"]))
         ctx.ob("R17.4", "Path.__iadd__[%s]" % tname, copied and not raw and pth.exit == "return", "; ".join(ast.unparse(x)[:60] for x in pth.stmts), ia.lineno,
                "concatenation must copy the right operand's segments and link them through extend")
+    # string + path: the same two obligations for the reflected operator, where the path is the RIGHT operand
+    ra = ctx.fn("Path.__radd__", "R17.4")
+    rother = ra.args.args[1].arg
+    for ident in (False, True):
+        pth = follow(ctx, "R17.4", ra, {rother: "str"}, extra=identity_answer(ident))
+        ext = [c for c in calls_in(pth.stmts, lambda c: isinstance(c.func, ast.Attribute) and c.func.attr in ("extend", "__iadd__") and len(c.args) == 1)] + \
+            [st for st in pth.stmts if isinstance(st, ast.AugAssign) and isinstance(st.op, ast.Add)]
+        drawn = Taint(pth.stmts, lambda n: (isinstance(n, ast.Call) and (call_name(n) == "abs" or (isinstance(n.func, ast.Attribute) and n.func.attr in ("d", "segments", "reify")))
+                                             and any(isinstance(x, ast.Name) and x.id == "self" for x in ast.walk(n)))
+                      or (isinstance(n, ast.BinOp) and isinstance(n.op, ast.Mult) and ast.unparse(n.right).endswith(".transform")), through_containers=True)
+        from_self = Taint(pth.stmts, lambda n: isinstance(n, ast.Name) and n.id == "self", through_containers=True)
+        args = [(c.args[0] if isinstance(c, ast.Call) else c.value) for c in ext]
+        if ident:
+            ok = bool(args) and all(from_self.derived(a) for a in args)
+            ctx.ob("R17.4", "Path.__radd__[str + plain path]", ok and pth.exit == "return", "; ".join(ast.unparse(x)[:60] for x in pth.stmts), ra.lineno,
+                   "string + path appends the path's segments to the parsed string")
+        else:
+            ok = bool(args) and all(drawn.derived(a) for a in args)
+            ctx.ob("R17.4", "Path.__radd__[str + path carrying a transform]", ok and pth.exit == "return", "; ".join(ast.unparse(x)[:60] for x in pth.stmts), ra.lineno,
+                   "what is appended must be what the path draws (abs / d()), not its raw segments: 'M0,0' + Path('L1,1', transform='scale(2)') ends at (2,2)")
     pth = follow(ctx, "R17.4", ia, {other: "Rect"})
     ok = bool(calls_in(pth.stmts, lambda c: attr_chain(c.func) == ["self", "parse"] and len(c.args) == 1 and isinstance(c.args[0], ast.Call) and attr_chain(c.args[0].func) == [other, "d"]))
     ctx.ob("R17.4", "Path.__iadd__[Shape]", ok, "; ".join(ast.unparse(x)[:60] for x in pth.stmts), ia.lineno, "a shape is appended as its path data")
